@@ -780,6 +780,13 @@ class _ValueTracker:
                             v = ("v", "ControlFlow", 0 if a[2] == 0 else 1)
                         elif a[1] == "Option":
                             v = ("v", "ControlFlow", 0 if a[2] == 1 else 1)
+                elif t.dest.is_local():
+                    # the error path of `?`: from_residual of a Result residual is an Err, of an Option residual a None
+                    nm = [n or "" for n in t.names()]
+                    if any(re.search(r"^<std::result::Result<.*> as std::ops::FromResidual<std::result::Result<std::convert::Infallible, .*>>>::from_residual$", n) for n in nm):
+                        v = ("v", "Result", 1)
+                    elif any(re.search(r"^<std::option::Option<.*> as std::ops::FromResidual<std::option::Option<std::convert::Infallible>>>::from_residual$", n) for n in nm):
+                        v = ("v", "Option", 0)
                 put(t.dest.local, v)
             # moved-out arguments are dead afterwards
             for a_ in t.args:
